@@ -88,13 +88,15 @@ theorem C11_concat_pieces {μ : Type} (dec : Dec μ) (cfg : Cfg μ) (hf : cfg.fi
     then ends normally.  An unmatched message advances by its declared length when only metadata is read
     and by the span of the metadata-only decoding (`infoSpan`, everything up to the end of section 4)
     when data sections are decoded: the scan then re-synchronises on what is left of the message (`7777`)
-    plus the separator, which therefore has to be quiet (`C11_stop_signature_tail_is_quiet`). -/
+    plus the separator, which therefore has to be quiet (`C11_stop_signature_tail_is_quiet`).  A rejected TABLE
+    DEFINITION message (`cfg.tableDef` of its metadata-only decoding) is decoded in full when data sections are
+    decoded (repair F25: its definitions govern what follows) and advances by its whole length. -/
 theorem C11_filter_exact {μ : Type} (dec : Dec μ) (cfg : Cfg μ) (pred : MsgInfo μ → Except Err Bool)
     (hf : cfg.filter = some pred) (hfr : Frame dec) (keep : Piece → Bool)
     (sep0 : Bytes) (ps : List Piece) (h0 : ¬ sig <:+: sep0)
     (hv : ∀ p ∈ ps, ValidMsg dec p.msg) (hs : ∀ p ∈ ps, ¬ sig <:+: p.sep)
     (hpred : ∀ p ∈ ps, ∀ i, dec true p.msg = .ok i → pred i = .ok (keep p))
-    (hun : ∀ p ∈ ps, keep p = false → cfg.infoOnly = false →
+    (hun : ∀ p ∈ ps, keep p = false → cfg.infoOnly = false → isDefPiece dec cfg p = false →
       0 < infoSpan dec p.msg ∧ infoSpan dec p.msg ≤ p.msg.length ∧
       Quiet (p.msg.drop (infoSpan dec p.msg) ++ p.sep)) :
     scan dec cfg (sep0 ++ body ps) = (deliver (actFilter dec cfg keep) sep0.length ps, .done) ∧
@@ -121,21 +123,31 @@ theorem C11_rejected_advance {μ : Type} (dec : Dec μ) (cfg : Cfg μ) (pred : M
     (hf : cfg.filter = some pred) (hfr : Frame dec) (m x : Bytes) (hv : ValidMsg dec m)
     (hrej : ∀ i, dec true m = .ok i → pred i = .ok false)
     (hspan : cfg.infoOnly = false → infoSpan dec m ≤ m.length) :
-    step dec cfg (m ++ x) = .adv (if cfg.infoOnly then m.length else infoSpan dec m) none := by
+    step dec cfg (m ++ x) =
+      .adv (if cfg.infoOnly then m.length else if isDefMsg dec cfg m then m.length else infoSpan dec m) none := by
   obtain ⟨ii, hii, hdecl⟩ := hv.info
+  obtain ⟨fi, hfi, hcons, _⟩ := hv.full
   have hp := hrej ii hii
   have h1 := hfr true m x ii hii
   cases hb : cfg.infoOnly with
   | true =>
-    simp only [step, tryBody, decodeHere, hf, h1, hp, hb, hdecl, take_length_append, Bool.false_and,
+    simp only [step, tryBody, decodeHere, hf, h1, hp, hb, hdecl, take_length_append, Bool.not_true, Bool.and_false,
       if_true, Bool.false_eq_true, if_false]
   | false =>
-    have hs : infoSpan dec m = ii.consumed := by simp only [infoSpan, hii]
-    have hle := hspan hb
-    rw [hs] at hle
-    have hl : (List.take ii.consumed (m ++ x)).length = ii.consumed := by
-      rw [List.length_take, List.length_append]; omega
-    simp only [step, tryBody, decodeHere, hf, h1, hp, hb, hl, hs, Bool.false_and, Bool.false_eq_true, if_false]
+    have hdef : isDefMsg dec cfg m = cfg.tableDef ii := by simp only [isDefMsg, hii]
+    cases htd : cfg.tableDef ii with
+    | true =>
+      have h2 := hfr false m x fi hfi
+      simp only [step, tryBody, decodeHere, hf, h1, hp, hb, h2, hdef, htd, hcons, take_length_append, Bool.not_false,
+        Bool.false_or, Bool.and_self, if_true, Bool.false_eq_true, if_false]
+    | false =>
+      have hs : infoSpan dec m = ii.consumed := by simp only [infoSpan, hii]
+      have hle := hspan hb
+      rw [hs] at hle
+      have hl : (List.take ii.consumed (m ++ x)).length = ii.consumed := by
+        rw [List.length_take, List.length_append]; omega
+      simp only [step, tryBody, decodeHere, hf, h1, hp, hb, hl, hs, hdef, htd, Bool.false_or, Bool.false_and,
+        Bool.false_eq_true, if_false]
 
 /-- ... in both modes the scan position after a rejected message is inside or at the end of that message,
     never behind it: whatever follows the message (a separator of any length, or the next message at once)
@@ -148,7 +160,10 @@ theorem C11_rejected_advance_le {μ : Type} (dec : Dec μ) (cfg : Cfg μ) (pred 
   refine ⟨_, C11_rejected_advance dec cfg pred hf hfr m x hv hrej hspan, ?_, ?_⟩
   · cases hb : cfg.infoOnly with
     | true => simp
-    | false => simpa using hspan hb
+    | false =>
+      cases hd : isDefMsg dec cfg m with
+      | true => simp
+      | false => simpa using hspan hb
   · intro hb; simp [hb]
 
 /-- **the message after a rejected one is found**, in both modes and for ANY signature-free separator
